@@ -72,6 +72,7 @@ var l struct {
 	target   []int
 	first    []int
 	last     []int
+	blocked  []bool // known to sit in a real primitive: not scheduled until it shows up at a yield again
 }
 
 //go:norace
@@ -85,7 +86,13 @@ func waitTurn(me int) {
 		if spins%2048 != 0 {
 			continue
 		}
-		if l.steps != lastSteps || l.turn < 0 {
+		if l.turn < 0 {
+			// nobody holds the turn (every other live task was blocked when the
+			// last holder finished): a task that is ready again takes it
+			l.turn = me
+			continue
+		}
+		if l.steps != lastSteps {
 			lastSteps, since = l.steps, time.Time{}
 			continue
 		}
@@ -96,6 +103,7 @@ func waitTurn(me int) {
 		if time.Since(since) > stallAfter && l.turn >= 0 && l.turn < l.n && !l.done[l.turn] && l.turn != me {
 			// the holder is blocked in a primitive of the code under test: take over
 			l.res.Stalls++
+			l.blocked[l.turn] = true
 			l.turn = me
 		}
 	}
@@ -114,7 +122,7 @@ func drawGap() int {
 func runnableOther(cur int) []int {
 	out := make([]int, 0, l.n)
 	for i := 0; i < l.n; i++ {
-		if i != cur && !l.done[i] {
+		if i != cur && !l.done[i] && !l.blocked[i] {
 			out = append(out, i)
 		}
 	}
@@ -140,7 +148,7 @@ func switchTo(cur, next, site int) {
 func bestPrio(except int) int {
 	best := -1
 	for i := 0; i < l.n; i++ {
-		if l.done[i] || i == except {
+		if l.done[i] || i == except || l.blocked[i] {
 			continue
 		}
 		if best < 0 || l.prio[i] > l.prio[best] {
@@ -158,7 +166,8 @@ func yieldL(site int) {
 	}
 	if l.turn != me {
 		// a task that was blocked in a real primitive (and lost the turn
-		// meanwhile) waits here until it is scheduled again
+		// meanwhile) is ready again and waits here until it is scheduled
+		l.blocked[me] = false
 		waitTurn(me)
 	}
 	l.steps++
@@ -245,6 +254,7 @@ func setupL(n int, cfg LConfig) {
 	l.res = LResult{PerTask: make([]int, n)}
 	l.first = make([]int, n)
 	l.last = make([]int, n)
+	l.blocked = make([]bool, n)
 	l.turn = -1
 	l.prio = make([]int, n)
 	l.changeAt = nil
